@@ -108,6 +108,16 @@ Proof.
 Qed.
 Print Assumptions C01_mutable_mode_partial.
 
+(* a call that is REJECTED inside an in-place chain (no copy, no effect of its row fired) changes nothing at all: the heap is
+   the same and the receiver is handed back - so a chain with rejected calls ends where the chain without them ends *)
+Theorem C01_mutable_rejected_call :
+  forall w o mn args chs w' r c m,
+    lookup_call class_table w o mn = Some (c, m) -> mret m = RSelf ->
+    fired_ok false (crecopy c) (meffs m) chs = true ->
+    exec_call class_table (fun _ _ k => false && mcopies k) w o mn args chs [] = Some (w', r) -> w' = w /\ r = o.
+Proof. intros w o mn args chs w' r c m LC MR Q H. eapply unfired_in_place_noop; eauto. Qed.
+Print Assumptions C01_mutable_rejected_call.
+
 Definition mutable_chain : list call :=
   [ ("select", [], [(true, mkCell true [IAtom "a"]); (false, mkCell true []); (true, mkCell true [IAtom "a"]); (false, mkCell false [])]);
     ("from_", [], [(true, mkCell true [IAtom "t"]); (false, mkCell false []); (false, mkCell false [])]);
